@@ -35,6 +35,11 @@ type csCase struct {
 	User    string `json:"user,omitempty"`  // setup-proxy-*: user name in TOR_PT_PROXY
 	Pass    string `json:"pass,omitempty"`  // … and password
 	Level   string `json:"level,omitempty"` // log level (default DEBUG)
+	// socks-raw: the raw SOCKS5 messages (hex, comma separated), what they are, and the
+	// distinctive host names / addresses embedded in them
+	Msgs    string   `json:"msgs,omitempty"`
+	Note    string   `json:"note,omitempty"`
+	Needles []string `json:"needles,omitempty"`
 }
 
 type csPath struct {
@@ -109,6 +114,12 @@ var csPaths = []csPath{
 	{"client", "setup-proxy-http-user", "", nil},
 	{"client", "setup-proxy-http-userpass", "", nil},
 	{"server", "setup-bind", "registered listener", []string{"errip"}},
+	// the real clientHandler on raw SOCKS5 messages: requests that fail in every way the front
+	// end can fail, and odd-but-accepted ones (DOMAINNAME payloads with ':' '[' ']' '%' and
+	// port-like suffixes), all built around distinctive destination names / addresses: whatever
+	// text reaches the log ("client failed socks handshake: …", "closed connection") must not
+	// contain them
+	{"client", "socks-raw", "", nil},
 }
 
 func hostOf(hostport string) string {
@@ -209,6 +220,10 @@ func csCheck(r *vlib.Run, h *csHook, c csCase) {
 	if c.Level != "" {
 		line += " level=" + c.Level
 	}
+	if c.Msgs != "" {
+		line += " msgs=" + c.Msgs
+		r.Count("callsite.socks-raw", c.Note)
+	}
 	rep := h.call(line)
 	r.Case(line, c.Mode == "safe" && len(p.expect) > 0)
 	r.Validated(1)
@@ -240,6 +255,20 @@ func csCheck(r *vlib.Run, h *csHook, c csCase) {
 				}
 				r.Violate("log-line-contains-peer-address", "impl-oracle",
 					fmt.Sprintf("%s handler, path %s, scrubbing enabled: the log line %q contains the %s address/host %q", c.Who, c.Path, bad, k, nd[k]), tc)
+				return
+			}
+		}
+		for _, n := range c.Needles {
+			if n != "" && strings.Contains(text, n) {
+				bad := ""
+				for _, l := range strings.Split(text, "\n") {
+					if strings.Contains(l, n) {
+						bad = l
+						break
+					}
+				}
+				r.Violate("log-line-contains-destination", "impl-oracle",
+					fmt.Sprintf("client handler, SOCKS request %q (%s), scrubbing enabled: the log line %q contains the destination %q", c.Note, c.Msgs, bad, n), tc)
 				return
 			}
 		}
@@ -287,6 +316,78 @@ func csAddresses(rng *vlib.Rng) csCase {
 	return c
 }
 
+// rawSocksCases: SOCKS5 exchanges built around distinctive destinations: every way the front end
+// can fail, and odd-but-accepted DOMAINNAME payloads.  Each is (note, messages, needles).
+func rawSocksCases(rng *vlib.Rng) []csCase {
+	host := fmt.Sprintf("dest-%x.hidden-%x.example", rng.U64()&0xffffff, rng.U64()&0xffff)
+	ip4 := fmt.Sprintf("203.0.113.%d", rng.Range(2, 250))
+	ip6 := fmt.Sprintf("2001:db8:9::%x:%x", rng.Range(0x100, 0xfffe), rng.Range(0x100, 0xfffe))
+	hx := func(b []byte) string { return vlib.Hex(b) }
+	domReq := func(name string) []byte {
+		r := append([]byte{5, 1, 0, 3, byte(len(name))}, name...)
+		return append(r, 0x01, 0xbb)
+	}
+	var out []csCase
+	add := func(note string, needles []string, msgs ...[]byte) {
+		var hs []string
+		for _, m := range msgs {
+			hs = append(hs, hx(m))
+		}
+		out = append(out, csCase{Who: "client", Path: "socks-raw", Note: note, Msgs: strings.Join(hs, ","), Needles: needles})
+	}
+	greet := []byte{5, 1, 0}
+	// odd-but-accepted (and, for a changed tree, possibly rejected) names
+	for _, base := range []string{host, ip4, ip6} {
+		for _, v := range []struct{ note, name string }{
+			{"plain", base}, {"bracketed", "[" + base + "]"}, {"name:port", base + ":443"}, {"[name]:port", "[" + base + "]:443"},
+			{"zone", base + "%eth0"}, {"escaped zone", base + "%25eth0"}, {"[zone]", "[" + base + "%eth0]"},
+			{"trailing colon", base + ":"}, {"leading colon", ":" + base}, {"double colon suffix", base + "::"},
+			{"open bracket", "[" + base}, {"close bracket", base + "]"}, {"name:port:port", base + ":443:80"},
+			{"bad hex group", base + ":zz"}, {"too many groups", "1:2:3:4:5:6:7:" + base}, {"port-like :0", base + ":0"},
+			{"port-like :65536", base + ":65536"}, {"user@", "user@" + base + ":443"}, {"url", "http://" + base + ":443/"},
+		} {
+			if len(v.name) <= 255 {
+				add("name/"+v.note, []string{base}, greet, domReq(v.name))
+			}
+		}
+	}
+	// every way the front end can fail, with the destination in the bytes wherever there is one
+	req := domReq("[" + ip6 + "]:443")
+	nd := []string{ip6, host}
+	with := func(i int, b byte) []byte { r := append([]byte(nil), req...); r[i] = b; return r }
+	add("fail/greeting version", nd, []byte{4, 1, 0})
+	add("fail/no methods", nd, []byte{5, 0})
+	add("fail/no acceptable method", nd, []byte{5, 2, 0x80, 0x81})
+	add("fail/greeting truncated", nd, []byte{5})
+	add("fail/empty", nd)
+	add("fail/pipelined request (trailing data)", nd, append(append([]byte(nil), greet...), req...))
+	add("fail/request version", nd, greet, with(0, 4))
+	add("fail/command BIND", nd, greet, with(1, 2))
+	add("fail/reserved", nd, greet, with(2, 1))
+	add("fail/address type", nd, greet, with(3, 2))
+	add("fail/empty name", nd, greet, []byte{5, 1, 0, 3, 0, 0x01, 0xbb})
+	add("fail/name truncated", nd, greet, req[:len(req)-6])
+	add("fail/port missing", nd, greet, req[:len(req)-2])
+	add("fail/port truncated", nd, greet, req[:len(req)-1])
+	add("fail/trailing byte after port", nd, greet, append(append([]byte(nil), req...), 0))
+	auth := func(u, p string) []byte {
+		m := append([]byte{1, byte(len(u))}, u...)
+		return append(append(m, byte(len(p))), p...)
+	}
+	ga := []byte{5, 1, 2}
+	add("fail/auth version", nd, ga, func() []byte { a := auth("bridge="+host, "\x00"); a[0] = 2; return a }())
+	add("fail/empty username", nd, ga, []byte{1, 0, 1, 0})
+	add("fail/empty password", nd, ga, append(auth("bridge="+host, ""), 0)[:len(auth("bridge="+host, ""))])
+	add("fail/auth truncated", nd, ga, auth("bridge="+host, "\x00")[:9])
+	add("fail/args: no value", nd, ga, auth(host, "\x00"))
+	add("fail/args: bad escape", nd, ga, auth("bridge="+host+"\\x", "\x00"))
+	add("fail/args: trailing semicolon", nd, ga, auth("bridge="+host+";", "\x00"))
+	add("fail/args: empty key", nd, ga, auth("="+host, "\x00"))
+	add("fail/args: dangling escape in password", nd, ga, auth("bridge="+host, ";dns="+ip4+"\\"))
+	add("ok/args carrying the destination", nd, ga, auth("bridge="+host+";addr="+ip6, "\x00"), req)
+	return out
+}
+
 // callSites runs the family; replay != nil re-runs one recorded case.
 func callSites(r *vlib.Run, replay *csCase) {
 	h, err := csStart()
@@ -319,7 +420,17 @@ func callSites(r *vlib.Run, replay *csCase) {
 	for i, n := 0, r.Scale(8, 60); i < n; i++ {
 		a := csAddresses(rng)
 		real := fmt.Sprintf("127.%d.%d.%d:%d", rng.Range(2, 250), rng.Range(2, 250), rng.Range(2, 250), rng.Range(40000, 60000))
+		for _, rc := range rawSocksCases(rng) {
+			for _, mode := range []string{"safe", "unsafe"} {
+				c := a
+				c.Mode, c.Who, c.Path, c.Msgs, c.Note, c.Needles = mode, rc.Who, rc.Path, rc.Msgs, rc.Note, rc.Needles
+				csCheck(r, h, c)
+			}
+		}
 		for _, p := range csPaths {
+			if p.path == "socks-raw" {
+				continue // driven above
+			}
 			for _, mode := range []string{"safe", "unsafe"} {
 				c := a
 				c.Mode, c.Who, c.Path = mode, p.who, p.path
